@@ -506,20 +506,39 @@ def runK (i : KIn) (o : KOut) : Verdict :=
 /-! ### round trip of the persisted structures (viper / YAML / mapstructure: a trusted parameter of the
 model — the model takes "read back = what was written"; the harness exercises it on the real path) -/
 
+/-- a pair of record lengths `ConfigurePulseLengths` accepts -/
+def legalLengths (npre nsamp : Int) : Bool := 0 < npre && npre < nsamp
+
+/-- What `RunRPCServer` does with the saved record lengths at start-up ("set some defaults that won't
+cause problems down the line"): a non-positive pre-trigger length becomes 400, then a total length that
+does not exceed the pre-trigger length becomes twice the pre-trigger length. -/
+def sanitizeLengths (npre nsamp : Int) : Int × Int :=
+  let npre' := if npre ≤ 0 then 400 else npre
+  let nsamp' := if nsamp ≤ npre' then 2 * npre' else nsamp
+  (npre', nsamp')
+
+def parseLengths (s : String) : Option (Int × Int) :=
+  match s.splitOn "/" with
+  | [a, b] => match a.toInt?, b.toInt? with
+      | some x, some y => some (x, y)
+      | _, _ => none
+  | _ => none
+
 def runR (ts : List String) : Verdict :=
-  let p : P (String × List String × List String) := do
+  let p : P (Int × Int × String × List String × List String) := do
     P.kw "old"; let _ ← P.nat
     P.kw "nch"; let _ ← P.nat
     P.kw "ntrig"; let _ ← P.nat
+    P.kw "st"; let npre ← P.int; let nsamp ← P.int
     P.kw "rej"; let rej ← P.tok
     P.kw "have"; let hv ← P.list P.tok
     P.kw "h"; let _ ← P.tok
     P.kw "OUT"
     let rest ← get
-    pure (rej, hv, rest)
+    pure (npre, nsamp, rej, hv, rest)
   match P.run p ts with
   | .error e => .bad e
-  | .ok (rej, hv, out) =>
+  | .ok (npre, nsamp, rej, hv, out) =>
     match out with
     | "CRASH" :: cls => .viol s!"C16:restore-crash start-up crashed while restoring a saved configuration ({" ".intercalate cls})"
     | ["ERR"] => .viol "C16:restore-error start-up could not read a saved configuration"
@@ -529,12 +548,23 @@ def runR (ts : List String) : Verdict :=
         | _ => []
       let got := pairs out
       -- a saved REJECTED request was never the configuration of a source: only "start-up survives" is demanded
-      let judged := hv.filter (fun k => !((k == "triangle" && rej.startsWith "tri") || (k == "simpulse" && rej.startsWith "sim")))
+      let judged := hv.filter (fun k => k != "status" &&
+        !((k == "triangle" && rej.startsWith "tri") || (k == "simpulse" && rej.startsWith "sim")))
+      -- record lengths: a legal saved pair must come back unchanged (the property); an illegal one gets the
+      -- start-up's documented defaults (the model's rule)
+      let stGot := if hv.contains "status" then (got.lookup "status").bind parseLengths else some (sanitizeLengths npre nsamp)
+      if hv.contains "status" && legalLengths npre nsamp && stGot != some (npre, nsamp) then
+        .viol s!"C16:restore-mismatch-STATUS the record lengths restored at the next start-up ({(got.lookup "status").getD "?"}) differ from the saved legal pair {npre}/{nsamp}"
+      else if stGot != some (sanitizeLengths npre nsamp) then
+        .diff s!"restore of illegal saved record lengths {npre}/{nsamp}: model={(sanitizeLengths npre nsamp).1}/{(sanitizeLengths npre nsamp).2} impl={(got.lookup "status").getD "?"}"
+      else
       match judged.find? (fun k => got.lookup k != some "1") with
       | some k => .viol s!"C16:roundtrip-{k} the {k} settings restored at the next start-up differ from the ones saved"
       | none =>
         if out != ["none"] && got.length != hv.length then .diff "restore report does not match the saved topics"
-        else .ok (["R"] ++ hv.map (fun k => "rt-" ++ k) ++ (if rej == "-" then [] else ["rejected-request"]))
+        else .ok (["R"] ++ hv.map (fun k => "rt-" ++ k) ++ (if rej == "-" then [] else ["rejected-request"])
+          ++ (if hv.contains "status" && nsamp == npre + 1 && npre > 0 then ["lengths-boundary"] else [])
+          ++ (if hv.contains "status" && !legalLengths npre nsamp then ["lengths-illegal"] else []))
 
 /-! ### facts -/
 
